@@ -109,6 +109,8 @@ def xml_mutations(xml, r, per_site=None):
     # entity expansion: nested internal entities (10 levels of 10 references each would expand to 10^10 characters)
     lv = "".join(f'<!ENTITY l{i} "' + f"&l{i - 1};" * 10 + '">' for i in range(1, 10))
     muts.append(("xmlentitybomb", "<e57Root", '<!DOCTYPE x [<!ENTITY l0 "aaaaaaaaaa">' + lv + ']><e57Root', 0))
+    muts.append(("xmlentityquad", "<e57Root", '<!DOCTYPE x [<!ENTITY qa "' + "a" * 3000 + '"><!ENTITY qb "' + "&qa;" * 250 + '">]><e57Root', 0))
+    muts.append(("xmlentityquad-used", '<guid type="String"><![CDATA[', '<guid type="String">' + "&qb;" * 400 + '<![CDATA[', 0))
     muts.append(("xmlentitybomb-used", '<guid type="String"><![CDATA[', '<guid type="String">&l9;<![CDATA[', 0))
     return muts
 
@@ -157,6 +159,13 @@ def generate(bases, seed, tier):
         for xl, fl in ((1 << 28, 1 << 40), (1 << 33, 1 << 62), ((1 << 64) - 1, (1 << 64) - 1), (size * 4, size * 8)):
             out.append({"base": bi, "name": f"b{bi}:hdr.xmllen={xl}&hdr.length={fl}",
                         "edits": [{"k": "log", "off": 32, "bytes": le(xl, 8)}, {"k": "log", "off": 16, "bytes": le(fl, 8)}], "reseal": True})
+        # page sizes that divide the file but not by four (validate_crc / raw_xml take the page size from the file)
+        for d in [d for d in list(range(5, 260)) + [1022, 1023, 1025, 1026, 2046, 3070] if size % d == 0 and d % 4 != 0][:24]:
+            out.append({"base": bi, "name": f"b{bi}:hdr.pagesize={d}(divides)", "edits": [{"k": "log", "off": 40, "bytes": le(d, 8)}], "reseal": False})
+        # entity expansion that grows with the square of the XML size: a long entity, an entity of many references to it, many uses
+        quad = [m for m in xm if m[0].startswith("xmlentityquad")]
+        if len(quad) == 2:
+            out.append({"base": bi, "name": f"b{bi}:xmlentityquad+use", "edits": [{"k": "xml", "from": m[1], "to": m[2], "nth": m[3]} for m in quad], "reseal": True})
         # billion laughs: the entity definitions and a use of the outermost entity in the file GUID
         bomb = [m for m in xm if m[0].startswith("xmlentitybomb")]
         if len(bomb) == 2:
@@ -166,7 +175,7 @@ def generate(bases, seed, tier):
             lp = phys2log(int(m.group(1)))
             frm = m.group(0)
             nth = text[:m.start()].count(frm)
-            for nl in (int(m.group(2)) + 6000, size * 3, 1 << 24, 1 << 40):
+            for nl in (int(m.group(2)) + 6000, size * 3, 1 << 24, 1 << 40, 1 << 63, (1 << 64) - 20):
                 for seclen in (16 + nl + (4 - nl % 4) % 4, nl):
                     out.append({"base": bi, "name": f"b{bi}:blob@{m.group(1)}.length={nl}&seclen={seclen}",
                                 "edits": [{"k": "xml", "from": frm, "to": f'type="Blob" fileOffset="{m.group(1)}" length="{nl}"', "nth": nth},
